@@ -1,12 +1,116 @@
 /-
-Interleaving model for the server-mode handlers (C19): atomic actions on the lock
-`next_row_generator_lock` and on the two shared cells `next_row_generator`, `row_generator`.
-The action sequences of the real handlers are generated from the source (`Generated/HandlerIR`).
+Interleaving model for the server-mode handlers (C19).
+
+* `Act`: atomic actions on the (re-entrant) lock `next_row_generator_lock` and on the two protected
+  cells `next_row_generator` / `row_generator`.  The action sequences of the real handlers are
+  generated from the source on every run (`Generated/HandlerIR.lean`).
+* `Sys`: any number of threads, each running such a sequence; a step of thread `t` is enabled iff it
+  is not an `acq` of a lock somebody else holds.
+* `Cells` + critical sections: what the three handlers' critical sections *do* to the cells.
 -/
 namespace Wheatley.Server
 
 inductive Act where
   | acq | rel | rdNext | wrNext | rdGen | wrGen | branch
   deriving Repr, BEq, DecidableEq
+
+/-- Lock depth of a thread after running a prefix of its program (re-entrant acquisitions nest). -/
+def depthAfter : List Act → Nat → Nat
+  | [], d => d
+  | .acq :: rest, d => depthAfter rest (d + 1)
+  | .rel :: rest, d => depthAfter rest (d - 1)
+  | _ :: rest, d => depthAfter rest d
+
+/-- **Lock discipline** of one handler: every access to `next_row_generator` and every write of
+`row_generator` happens while the lock is held; releases match acquisitions; the lock is not held at
+the end.  (Reads of `row_generator` outside the lock are tolerated: they feed log lines and the
+opening row, never the protected cells.) -/
+def disciplined : List Act → Nat → Bool
+  | [], d => d == 0
+  | .acq :: rest, d => disciplined rest (d + 1)
+  | .rel :: rest, d => d != 0 && disciplined rest (d - 1)
+  | .rdNext :: rest, d => d != 0 && disciplined rest d
+  | .wrNext :: rest, d => d != 0 && disciplined rest d
+  | .wrGen :: rest, d => d != 0 && disciplined rest d
+  | _ :: rest, d => disciplined rest d
+
+/-- Does this action touch a protected cell in a way that needs the lock? -/
+def Act.protected : Act → Bool
+  | .rdNext | .wrNext | .wrGen => true
+  | _ => false
+
+/-- A thread: what it has still to run, and how many times it holds the lock. -/
+structure Thread where
+  todo : List Act
+  depth : Nat
+  deriving Repr, DecidableEq
+
+/-- The system: the threads and the lock's owner. -/
+structure Sys where
+  threads : List Thread
+  owner : Option Nat
+  deriving Repr, DecidableEq
+
+/-- One step of thread `t` (an index into `threads`); `none` if the thread is finished or blocked. -/
+def Sys.step (s : Sys) (t : Nat) : Option Sys :=
+  match s.threads[t]? with
+  | none => none
+  | some th =>
+    match th.todo with
+    | [] => none
+    | .acq :: rest =>
+      if s.owner == none || s.owner == some t then
+        some { threads := s.threads.set t { todo := rest, depth := th.depth + 1 }, owner := some t }
+      else none
+    | .rel :: rest =>
+      -- (releasing a lock one does not hold raises RuntimeError: the thread goes no further)
+      if th.depth == 0 then none
+      else
+        let d := th.depth - 1
+        some { threads := s.threads.set t { todo := rest, depth := d },
+               owner := if d == 0 then none else s.owner }
+    | _ :: rest => some { threads := s.threads.set t { todo := rest, depth := th.depth }, owner := s.owner }
+
+/-- Run a schedule (a list of thread choices); choices that are not enabled are skipped. -/
+def Sys.run (s : Sys) : List Nat → Sys
+  | [] => s
+  | t :: ts => match s.step t with
+    | some s' => s'.run ts
+    | none => s.run ts
+
+/-! ### What the critical sections do -/
+
+/-- The protected cells plus the tower size they are checked against.  Generators are represented by
+the stage they need (0 = the place holder). -/
+structure Cells where
+  gen : Nat
+  next : Option Nat
+  size : Nat
+  ringing : Bool
+  deriving Repr, DecidableEq
+
+def fits (stage size : Nat) : Bool := stage != 0 && !(size < stage)
+
+/-- `_on_row_gen_change`'s critical section: `next_row_generator = <new>`. -/
+def csRowGen (g : Nat) (c : Cells) : Cells := { c with next := some g }
+
+/-- The tower handler's part of a size change (not under the lock): the new size. -/
+def wrSize (n : Nat) (c : Cells) : Cells := { c with size := n }
+
+/-- `_on_size_change`'s critical section: drop the queued generator iff it no longer fits. -/
+def csSize (c : Cells) : Cells :=
+  match c.next with
+  | some g => if fits g c.size then c else { c with next := none }
+  | none => c
+
+/-- `_on_look_to`'s critical section (one re-entrant hold): the gate on the generator that will be
+rung, then the swap. -/
+def csLookTo (c : Cells) : Cells :=
+  if fits (c.next.getD c.gen) c.size then { c with gen := c.next.getD c.gen, next := none, ringing := true }
+  else c
+
+/-- The whole size-change handler at critical-section granularity: nothing at all when the size is
+unchanged, else the tower update followed by the critical section. -/
+def sizeChange (n : Nat) (c : Cells) : Cells := if n = c.size then c else csSize (wrSize n c)
 
 end Wheatley.Server
